@@ -234,6 +234,17 @@ def _parse_list_rule(rule):
     Provided for backwards compatibility.
     """
 
+    # Only a list of strings and lists of strings is a rule; anything else
+    # (boolean, number, mapping, nested non-strings) fails closed.  A null
+    # value keeps its historical meaning of an empty rule.
+    if rule is not None and (not isinstance(rule, list) or not all(
+            isinstance(inner, str) or (
+                isinstance(inner, list) and
+                all(isinstance(r, str) for r in inner))
+            for inner in rule)):
+        LOG.error('Failed to understand rule %s', rule)
+        return _checks.FalseCheck()
+
     # Empty rule defaults to True
     if not rule:
         return _checks.TrueCheck()
